@@ -1367,6 +1367,19 @@ impl Error {
     ///
     /// Called by:
     /// - The live events adapter when the underlying parser fails.
+    /// True for errors reported by the YAML scanner/parser itself. Only those may be ignored
+    /// as "trailing garbage" after a document end marker; budget breaches and I/O errors met
+    /// at the same point must still surface.
+    pub(crate) fn is_trailing_garbage(&self) -> bool {
+        matches!(
+            self,
+            Error::ExternalMessage {
+                source: ExternalMessageSource::SaphyrParser,
+                ..
+            } | Error::UnknownAnchor { .. }
+        )
+    }
+
     #[cold]
     #[inline(never)]
     pub(crate) fn from_scan_error(err: ScanError) -> Self {
